@@ -5,7 +5,7 @@ from tracelib import *
 
 PROP = 'C05'
 PROPS_V = 'Props/C05.v'
-COQ_IMPORTS = ['Base.Str', 'Base.Value', 'Frame.Events']
+COQ_IMPORTS = ['Base.Str', 'Base.Value', 'Frame.Events', 'Frame.Pull']
 RULE = ('cases = pipelines prefix . observer . suffix: prefix of row-wise steps over 1-3 resources (0-120 rows), observer in '
         '{printer, dump_to_path, dump_to_zip, stream, first-run checkpoint, finalizer, update_stats, validate}, suffix incl. steps that '
         'discard rows or whole resources (filter_rows, delete_resource of first/middle/last/all resources, concatenate, join with and '
@@ -387,6 +387,14 @@ def witnesses():
 
 
 def coq_term(case, out):
+    if case['kind'] == 'observer' and case['suffix'] == 'take2' and 'error' not in out and isinstance(out.get('persisted'), list) \
+            and all(isinstance(x, int) for x in out['persisted']) and case['obs'] in ('dump', 'zip', 'stream', 'checkpoint'):
+        # the pull protocol: the later step asks for three rows of every resource (it hands on two and stops at the third) and
+        # goes on; what the observer persisted is what the model's observer has seen when the stream has been taken to its end
+        pkg = clist([clist([cnat(j) for j in range(n)]) for n in out['prefix_counts']])
+        takes = clist([cnat(3)] * len(out['prefix_counts']))
+        return ('(let s := fst (orun nat true (start nat %s) (reads %s)) in finished nat s && '
+                'list_eqb Nat.eqb (map (@List.length nat) (done s)) %s)') % (pkg, takes, clist([cnat(x) for x in out['persisted']]))
     if case['kind'] == 'abort' or 'error' in out or len(case['sizes']) != 1 or case['sizes'][0] > 20:
         return None
     # single-resource cases: the model's observer is transparent and records every row
